@@ -140,15 +140,13 @@ Proof.
 Qed.
 
 (* ---- handling a fetched blob list ------------------------------------------------------------------ *)
-Lemma handle_spec : forall c daH bl,
-  fst (fst (handle c daH bl)) = genuine_events c daH (before_poison bl) /\
-  snd (handle c daH bl) = existsb is_poison bl.
+Lemma handle_spec : forall c daH bl, fst (handle c daH bl) = genuine_events c daH bl.
 Proof.
-  intros c daH. induction bl as [|b r IH]; [split; reflexivity|].
-  destruct IH as [IHe IHp].
-  destruct b; cbn [handle before_poison is_poison existsb orb genuine_events flat_map];
-    try (destruct (handle c daH r) as [[ev mk] p]; cbn [fst snd] in *; subst;
-         try destruct (mem id (c_seen_h c)); try destruct (mem id (c_seen_d c)); split; reflexivity).
+  intros c daH. induction bl as [|b r IH]; [reflexivity|].
+  cbn [handle genuine_events flat_map]. destruct (handle c daH r) as [ev mk]. cbn [fst] in IH. subst ev.
+  destruct b; cbn [fst app]; try reflexivity.
+  - destruct (mem id (c_seen_h c)); reflexivity.
+  - destruct (mem id (c_seen_d c)); reflexivity.
 Qed.
 
 (* ---- attempts --------------------------------------------------------------------------------------- *)
@@ -159,7 +157,7 @@ Lemma last_repeat_error : forall k, last (repeat AError k) AError = AError.
 Proof. induction k as [|k IH]; [reflexivity|]. cbn [repeat]. destruct (repeat AError k) eqn:E; [reflexivity|]. exact IH. Qed.
 
 Definition events_for (c : cfg) (h : N) (bl : list blob) (cl : list aclass) : list event :=
-  if succeeded cl then genuine_events c h (before_poison bl) else [].
+  if succeeded cl then genuine_events c h bl else [].
 
 Lemma succeeded_cons_error : forall cl, succeeded (AError :: cl) = succeeded cl.
 Proof. intro cl. unfold succeeded. destruct cl; reflexivity. Qed.
@@ -169,7 +167,7 @@ Definition attempts_post (c : cfg) (h : N) (bl : list blob) (n : nat) (p : pout)
   Forall (call_at h) (p_calls p) /\
   (exists k : nat,
       (k = n /\ p_classes p = repeat AError k /\ p_res p = PErr) \/
-      ((k < n)%nat /\ exists a, deciding a /\ p_classes p = repeat AError k ++ [a] /\ p_res p = result_of a bl)) /\
+      ((k < n)%nat /\ exists a, deciding a /\ p_classes p = repeat AError k ++ [a] /\ p_res p = result_of a)) /\
   p_events p = events_for c h bl (p_classes p).
 
 Lemma attempts_spec : forall c h bl n outs, attempts_post c h bl n (attempts c h bl n outs).
@@ -184,8 +182,8 @@ Proof.
     destruct st as [got| | |[|]].
     + (* success *)
       specialize (Hgot got eq_refl). subst got.
-      pose proof (handle_spec c h bl) as [He Hp].
-      destruct (handle c h bl) as [[ev mk] pz]. cbn [fst snd] in *. subst.
+      pose proof (handle_spec c h bl) as He.
+      destruct (handle c h bl) as [ev mk]. cbn [fst] in He. subst.
       cbn [p_calls p_classes p_res p_events].
       split; [intros _; eexists; reflexivity|]. split; [exact Hall|]. split.
       * exists O. right. split; [lia|]. exists ASuccess. split; [discriminate|]. split; [reflexivity|].
@@ -234,16 +232,6 @@ Lemma mk_rec_ok : forall (c : cfg) (h : N) (loop : bool) (hi : hinfo) (next : N)
   emits_ok c (mk_rec h loop (h_blobs hi) (process c h hi) next).
 Proof. intros c h loop hi next Hn. apply mk_rec_ok_gen; [apply process_post|exact Hn]. Qed.
 
-Lemma process_panic : forall c h hi, p_res (process c h hi) = PPanic -> existsb is_poison (h_blobs hi) = true.
-Proof.
-  intros c h hi Hp. pose proof (process_post c h hi) as S.
-  set (p := process c h hi) in *. clearbody p.
-  destruct S as (_ & _ & (k & [(_ & _ & Hr)|(_ & a & _ & _ & Hr)]) & _); rewrite Hp in Hr; [discriminate|].
-  destruct a; cbn [result_of] in Hr; try discriminate.
-  destruct (existsb is_poison (h_blobs hi)); [reflexivity|discriminate].
-Qed.
-
-
 (* ---- the loop ---------------------------------------------------------------------------------------- *)
 Definition rec_good (c : cfg) (r : iter_rec) : Prop := rec_ok r /\ emits_ok c r.
 
@@ -289,9 +277,7 @@ Definition rec_content (c : cfg) (da : list hinfo) (r : iter_rec) : Prop := i_bl
 Lemma scan_spec : forall c da rest cur, aligned c da cur rest ->
   let '(st, recs) := scan c cur rest in
   linked cur recs /\ Forall (rec_good c) recs /\ Forall (rec_content c da) recs /\
-  s_cursor st = last_next cur recs /\ aligned c da (s_cursor st) (s_rest st) /\ recs <> [] /\
-  (poisoned rest = false -> s_dead st = false /\ poisoned (s_rest st) = false /\
-                            Forall (fun r => i_result r <> PPanic) recs).
+  s_cursor st = last_next cur recs /\ aligned c da (s_cursor st) (s_rest st) /\ recs <> [].
 Proof.
   intros c da rest. induction rest as [|hi rest' IH]; intros cur Hal.
   - cbn [scan].
@@ -300,58 +286,36 @@ Proof.
     split; [cbn [linked mk_rec i_height i_next]; auto|]. split; [constructor; [split; assumption|constructor]|].
     split; [constructor; [|constructor]; unfold rec_content; cbn [i_blobs i_height mk_rec];
             rewrite (aligned_content _ _ _ _ Hal); reflexivity|].
-    split; [reflexivity|]. split; [exact Hal|]. split; [discriminate|].
-    intros _. split; [reflexivity|]. split; [reflexivity|]. constructor; [cbn [i_result mk_rec]; rewrite Hres; discriminate|constructor].
+    split; [reflexivity|]. split; [exact Hal|]. discriminate.
   - cbn [scan].
     assert (Hcont : h_blobs hi = content c da cur) by (rewrite (aligned_content _ _ _ _ Hal); reflexivity).
-    pose proof (process_panic c cur hi) as Hpois.
     destruct (p_res (process c cur hi)) eqn:Hres.
     + (* advanced *)
       specialize (IH (cur + 1) (aligned_next _ _ _ _ _ Hal)).
       destruct (scan c (cur + 1) rest') as [st recs].
-      destruct IH as (Hl & Hg & Hct & Hcur & Hal' & Hne & Hpz).
+      destruct IH as (Hl & Hg & Hct & Hcur & Hal' & Hne).
       destruct (mk_rec_ok c cur true hi (cur + 1)) as [Hok Hem]; [rewrite Hres; reflexivity|].
       split; [cbn [linked]; split; [reflexivity|exact Hl]|].
       split; [constructor; [split; assumption|exact Hg]|].
       split; [constructor; [exact Hcont|exact Hct]|].
-      split; [rewrite last_next_cons; exact Hcur|]. split; [exact Hal'|]. split; [discriminate|].
-      intro Hp. cbn [poisoned existsb] in Hp. apply orb_false_iff in Hp. destruct Hp as [Hp1 Hp2].
-      destruct (Hpz Hp2) as (A & B & C). split; [exact A|]. split; [exact B|].
-      constructor; [cbn [i_result mk_rec]; rewrite Hres; discriminate|exact C].
+      split; [rewrite last_next_cons; exact Hcur|]. split; [exact Hal'|]. discriminate.
     + destruct (mk_rec_ok c cur true hi cur) as [Hok Hem]; [rewrite Hres; reflexivity|].
       split; [cbn [linked mk_rec i_height i_next]; auto|]. split; [constructor; [split; assumption|constructor]|].
       split; [constructor; [exact Hcont|constructor]|].
-      split; [reflexivity|]. split; [cbn [s_cursor s_rest]; apply aligned_same; exact Hal|]. split; [discriminate|].
-      intro Hp. cbn [s_dead s_rest]. split; [reflexivity|]. split; [exact Hp|].
-      constructor; [cbn [i_result mk_rec]; rewrite Hres; discriminate|constructor].
+      split; [reflexivity|]. split; [cbn [s_cursor s_rest]; apply aligned_same; exact Hal|]. discriminate.
     + destruct (mk_rec_ok c cur true hi cur) as [Hok Hem]; [rewrite Hres; reflexivity|].
       split; [cbn [linked mk_rec i_height i_next]; auto|]. split; [constructor; [split; assumption|constructor]|].
       split; [constructor; [exact Hcont|constructor]|].
-      split; [reflexivity|]. split; [cbn [s_cursor s_rest]; apply aligned_same; exact Hal|]. split; [discriminate|].
-      intro Hp. cbn [s_dead s_rest]. split; [reflexivity|]. split; [exact Hp|].
-      constructor; [cbn [i_result mk_rec]; rewrite Hres; discriminate|constructor].
-    + destruct (mk_rec_ok c cur true hi cur) as [Hok Hem]; [rewrite Hres; reflexivity|].
-      split; [cbn [linked mk_rec i_height i_next]; auto|]. split; [constructor; [split; assumption|constructor]|].
-      split; [constructor; [exact Hcont|constructor]|].
-      split; [reflexivity|]. split; [cbn [s_cursor s_rest]; apply aligned_same; exact Hal|]. split; [discriminate|].
-      intro Hp. exfalso. cbn [poisoned existsb] in Hp. apply orb_false_iff in Hp. destruct Hp as [Hp1 _].
-      rewrite (Hpois eq_refl) in Hp1. discriminate.
+      split; [reflexivity|]. split; [cbn [s_cursor s_rest]; apply aligned_same; exact Hal|]. discriminate.
 Qed.
 
 Lemma step_spec : forall c da st it, aligned c da (s_cursor st) (s_rest st) ->
   let '(st', recs) := step c st it in
   linked (s_cursor st) recs /\ Forall (rec_good c) recs /\ Forall (rec_content c da) recs /\
-  s_cursor st' = last_next (s_cursor st) recs /\ aligned c da (s_cursor st') (s_rest st') /\
-  (poisoned (s_rest st) = false -> s_dead st = false ->
-     s_dead st' = false /\ poisoned (s_rest st') = false /\ Forall (fun r => i_result r <> PPanic) recs).
+  s_cursor st' = last_next (s_cursor st) recs /\ aligned c da (s_cursor st') (s_rest st') /\ recs <> [].
 Proof.
   intros c da st it Hal. destruct it; cbn [step].
-  - destruct (s_dead st) eqn:Hd.
-    + split; [exact I|]. split; [constructor|]. split; [constructor|]. split; [reflexivity|]. split; [exact Hal|].
-      intros _ Hf. discriminate.
-    + pose proof (scan_spec c da (s_rest st) (s_cursor st) Hal) as S.
-      destruct (scan c (s_cursor st) (s_rest st)) as [st' recs].
-      destruct S as (A & B & C & D & E & _ & F). repeat (split; [assumption|]). intros Hp _. apply F. exact Hp.
+  - apply scan_spec. exact Hal.
   - set (hi := hd no_height (s_rest st)).
     assert (Hcont : h_blobs hi = content c da (s_cursor st)) by (rewrite (aligned_content _ _ _ _ Hal); reflexivity).
     destruct (mk_rec_ok c (s_cursor st) false hi (s_cursor st)) as [Hok Hem];
@@ -359,38 +323,30 @@ Proof.
     split; [cbn [linked mk_rec i_height i_next]; auto|]. split; [constructor; [split; assumption|constructor]|].
     split; [constructor; [exact Hcont|constructor]|].
     split; [cbn [last_next fold_left i_next mk_rec s_cursor]; reflexivity|].
-    split.
-    + cbn [s_cursor s_rest]. destruct (s_rest st) as [|hi0 r] eqn:Er; [exact Hal|].
-      apply aligned_same. exact Hal.
-    + intros Hp Hd. cbn [s_dead s_rest]. split; [exact Hd|]. split.
-      * destruct (s_rest st) as [|hi0 r] eqn:Er; [reflexivity|]. exact Hp.
-      * constructor; [|constructor]. cbn [i_result mk_rec]. intro Hr.
-        pose proof (process_panic c (s_cursor st) hi Hr) as Hz.
-        subst hi. destruct (s_rest st) as [|hi0 r]; [discriminate|].
-        cbn [hd] in Hz. cbn [poisoned existsb] in Hp. rewrite Hz in Hp. discriminate.
+    split; [|discriminate].
+    cbn [s_cursor s_rest]. destruct (s_rest st) as [|hi0 r] eqn:Er; [exact Hal|].
+    apply aligned_same. exact Hal.
 Qed.
 
 Lemma run_from_spec : forall c da h st, aligned c da (s_cursor st) (s_rest st) ->
   let '(st', rr) := run_from c st h in
   linked (s_cursor st) (concat rr) /\ Forall (rec_good c) (concat rr) /\ Forall (rec_content c da) (concat rr) /\
   s_cursor st' = last_next (s_cursor st) (concat rr) /\ aligned c da (s_cursor st') (s_rest st') /\
-  (poisoned (s_rest st) = false -> s_dead st = false ->
-     s_dead st' = false /\ Forall (fun r => i_result r <> PPanic) (concat rr)).
+  length rr = length h /\ Forall (fun recs => recs <> []) rr.
 Proof.
   intros c da h. induction h as [|it h IH]; intros st Hal.
   - cbn [run_from concat]. split; [exact I|]. split; [constructor|]. split; [constructor|]. split; [reflexivity|].
-    split; [exact Hal|]. intros _ Hd. split; [exact Hd|constructor].
+    split; [exact Hal|]. split; [reflexivity|constructor].
   - cbn [run_from]. pose proof (step_spec c da st it Hal) as S.
     destruct (step c st it) as [st1 recs]. destruct S as (A & B & C & D & E & F).
     specialize (IH st1 E). destruct (run_from c st1 h) as [st2 rr].
-    destruct IH as (A' & B' & C' & D' & E' & F').
+    destruct IH as (A' & B' & C' & D' & E' & L' & F').
     cbn [concat].
     split; [apply linked_app; [exact A|rewrite <- D; exact A']|].
     split; [apply Forall_app; split; assumption|].
     split; [apply Forall_app; split; assumption|].
     split; [rewrite last_next_app, <- D; exact D'|]. split; [exact E'|].
-    intros Hp Hd. destruct (F Hp Hd) as (F1 & F2 & F3). destruct (F' F2 F1) as (G1 & G2).
-    split; [exact G1|]. apply Forall_app; split; assumption.
+    split; [cbn [length]; rewrite L'; reflexivity|]. constructor; assumption.
 Qed.
 
 Lemma aligned_init : forall c da, aligned c da (s_cursor (init c da)) (s_rest (init c da)).
@@ -405,7 +361,7 @@ Proof.
   intros c da h. unfold iterations, final, run.
   pose proof (run_from_spec c da h (init c da) (aligned_init c da)) as S.
   destruct (run_from c (init c da) h) as [st rr]. cbn [fst snd].
-  destruct S as (A & B & _ & D & _ & _). split; [exact A|]. split; [|exact D].
+  destruct S as (A & B & _ & D & _ & _ & _). split; [exact A|]. split; [|exact D].
   eapply Forall_impl; [|exact B]. intros r [H _]. exact H.
 Qed.
 
@@ -415,7 +371,7 @@ Proof.
   intros c da h. unfold iterations, run.
   pose proof (run_from_spec c da h (init c da) (aligned_init c da)) as S.
   destruct (run_from c (init c da) h) as [st rr]. cbn [fst snd].
-  destruct S as (_ & B & C & _ & _ & _).
+  destruct S as (_ & B & C & _ & _ & _ & _).
   rewrite Forall_forall in *. intros r Hr. split; [apply (B r Hr)|apply (C r Hr)].
 Qed.
 
@@ -461,16 +417,10 @@ Proof.
   destruct (i_result r) eqn:Hres; try lia. destruct (i_loop r) eqn:Hlp; try lia.
   split; [reflexivity|]. split; [reflexivity|].
   destruct Hk as [(_ & _ & Hx)|(Hk & a & Ha & Hcl & Hx)]; [discriminate|].
-  unfold emits_ok in Hem. rewrite Hh in Hem. rewrite Hct, Hh in Hem. rewrite Hct, Hh in Hx.
-  destruct a; cbn [result_of] in Hx; try discriminate; try (exfalso; apply Ha; reflexivity).
-  - split; [left; rewrite Hcl; apply last_last|].
-    rewrite Hem. unfold succeeded. rewrite Hcl, last_last.
-    f_equal. destruct (existsb is_poison (content c da n)) eqn:Hz; [discriminate|].
-    clear -Hz. induction (content c da n) as [|b l IH]; [reflexivity|].
-    cbn [existsb] in Hz. apply orb_false_iff in Hz. destruct Hz as [Hb Hl].
-    cbn [before_poison]. rewrite Hb. f_equal. apply IH. exact Hl.
-  - split; [right; rewrite Hcl; apply last_last|].
-    rewrite Hem. unfold succeeded. rewrite Hcl, last_last. reflexivity.
+  unfold emits_ok in Hem. rewrite Hct, Hh in Hem.
+  split; [|exact Hem].
+  rewrite Hcl, last_last.
+  destruct a; cbn [result_of] in Hx; try discriminate; auto.
 Qed.
 
 Lemma run_from_app : forall c h1 h2 st,
@@ -500,33 +450,36 @@ Proof.
   intros c da h1 h2. unfold final, run. rewrite run_from_app.
   pose proof (run_from_spec c da h1 (init c da) (aligned_init c da)) as S1.
   destruct (run_from c (init c da) h1) as [st1 r1].
-  destruct S1 as (A1 & B1 & _ & D1 & E1 & _).
+  destruct S1 as (A1 & B1 & _ & D1 & E1 & _ & _).
   pose proof (run_from_spec c da h2 st1 E1) as S2.
   destruct (run_from c st1 h2) as [st2 r2].
-  destruct S2 as (A2 & B2 & _ & D2 & _ & _).
+  destruct S2 as (A2 & B2 & _ & D2 & _ & _ & _).
   cbn [fst]. split.
   - rewrite D1. apply last_next_mono; [eapply Forall_impl; [apply rec_good_step|exact B1]|exact A1].
   - rewrite D2. apply last_next_mono; [eapply Forall_impl; [apply rec_good_step|exact B2]|exact A2].
 Qed.
 
-Lemma no_crash_thm : forall c da h, poisoned da = false ->
-  s_dead (final c da h) = false /\ Forall (fun r => i_result r <> PPanic) (iterations c da h).
+Lemma served_thm : forall c da h,
+  length (snd (run c da h)) = length h /\ Forall (fun recs => recs <> []) (snd (run c da h)).
 Proof.
-  intros c da h Hp. unfold final, iterations, run.
+  intros c da h. unfold run.
   pose proof (run_from_spec c da h (init c da) (aligned_init c da)) as S.
-  destruct (run_from c (init c da) h) as [st rr]. cbn [fst snd].
-  destruct S as (_ & _ & _ & _ & _ & F). apply F; [exact Hp|reflexivity].
+  destruct (run_from c (init c da) h) as [st rr]. cbn [snd].
+  destruct S as (_ & _ & _ & _ & _ & L & F). split; assumption.
 Qed.
 
-Definition wit_cfg : cfg := {| c_stored := 0; c_start := 7; c_seen_h := []; c_seen_d := [] |}.
-Definition wit_da : list hinfo := [ {| h_blobs := [BHeader 1; BDataNoMeta 2; BData 3]; h_outs := [OOk] |} ].
+(* any blob list, fetched successfully, is survived: the call returns nil and hands over exactly the genuine
+   unseen items, whatever else is in the list *)
+Lemma attempts_ok_first : forall c h (bl : list blob) n outs, bl <> [] ->
+  let p := attempts c h bl (S n) (OOk :: outs) in
+  p_res p = PNil /\ p_events p = genuine_events c h bl /\ p_outs p = outs.
+Proof.
+  intros c h bl n outs Hne. cbn [attempts tl]. rewrite (retrieve_ok h bl Hne).
+  pose proof (handle_spec c h bl) as He. destruct (handle c h bl) as [ev mk]. cbn [fst] in He. subst ev.
+  cbn [p_res p_events p_outs]. repeat split; reflexivity.
+Qed.
 
-Lemma crash_witness : s_dead (final wit_cfg wit_da [ISignal]) = true /\
-                      iterations wit_cfg wit_da [ISignal; ISignal] =
-                      [ {| i_height := 7; i_loop := true; i_blobs := [BHeader 1; BDataNoMeta 2; BData 3];
-                           i_classes := [ASuccess]; i_result := PPanic; i_calls := [CGetIDs 7; CGet 7 0 3];
-                           i_events := [EHeader 1 7]; i_marks := [MHeader 1 7; MData 2 7]; i_next := 7 |} ].
-Proof. vm_compute. split; reflexivity. Qed.
-
-Lemma no_crash_false : ~ (forall c da h, s_dead (final c da h) = false).
-Proof. intro H. specialize (H wit_cfg wit_da [ISignal]). vm_compute in H. discriminate. Qed.
+Lemma survives_thm : forall c h (bl : list blob) outs, bl <> [] ->
+  let p := attempts c h bl retries (OOk :: outs) in
+  p_res p = PNil /\ p_events p = genuine_events c h bl /\ p_outs p = outs.
+Proof. intros c h bl outs Hne. apply (attempts_ok_first c h bl 9 outs Hne). Qed.
